@@ -223,6 +223,9 @@ func buildDataset(c *fw.Ctx, o dsOpts) *dataset {
 		t.Fields = o.fields
 	}
 	specs := append([]ref.TableSpec{t}, o.extraTables...)
+	for i := 1; i < len(specs); i++ {
+		specs[i].Res = t.Res // sibling tables share the main table's resolution (retention is sized for it)
+	}
 	spanP := o.spanPeriods[0] + r.Intn(o.spanPeriods[1]-o.spanPeriods[0]+1)
 	span := time.Duration(spanP) * t.Res
 	slack := t.Res * time.Duration(2+r.Intn(4))
